@@ -807,7 +807,7 @@ def run(ctx):
                 gi = tolists(attempt(lambda: getattr(obj, names["idx"][iname])))
                 raw = attempt(lambda: getattr(obj, names["lab"][what]))
                 check_idx(iname, gi)
-                eff = cur if kind == "dg" else frozen       # what a correct implementation (dg) / the code as documented-by-behaviour (mc) uses
+                eff = cur       # both objects must use the labels in force now (MarkovChain since /repo f4ee7b3)
                 if isinstance(raw, str):
                     if raw != gi:
                         fail(kind + ":hist-labels", "%s raised but the indices variant gave %s" % (names["lab"][what], gi))
